@@ -85,8 +85,11 @@ CHECKS["C17"] = {
                   "addPollMessage(front), definition of a new poll message, MessageMap::remove, reload) up to the depth "
                   "bound; from EVERY distinct reachable state an unperturbed run of 40*sum(p) selections of the real "
                   "getNextPoll is judged by the reference monitor (waiting bound per message, frequency proportional to "
-                  "1/p, equal priorities equally often); every history is executed in its own forked process because "
-                  "g_lastPollOrder is process-global",
+                  "1/p, equal priorities equally often); in addition, from every state up to a smaller depth, an exhaustive "
+                  "family of periodically perturbed judged runs (q selections, then a priority change / front insertion / "
+                  "re-definition of one message, repeated for >= 40*sum(p) selections) checks that no sequence of "
+                  "perturbations postpones a message beyond its waiting bound; every history is executed in its own "
+                  "forked process because g_lastPollOrder is process-global",
     "level_note": "bounded: 3 messages (thorough also 4), priorities {1,2,3,9}, depth 6 on one core configuration and "
                   "depth 4 on two more, depth 2 on 200 initial priority vectors x clock step {1 s, 0 s} x warm-up {0, 50} "
                   "selections (thorough: depth 7 / 6 / 3 and 4 messages to depth 5 / 2); trusts RefPoll (self-tested at "
@@ -107,13 +110,22 @@ CHECKS["C17"] = {
             "unperturbed run of T=40*sum(p) selections from each state: (W) no message waits more than "
             "sum_{j!=m}(ceil(p_m/p_j)+2) selections (start, between two selections, end), (F) |n_i - T*(1/p_i)/sum(1/p_j)| "
             "<= 3, (E) equal priorities differ by at most 2, plus: a message with a priority must be returned whenever "
-            "one exists. states = distinct (configuration, canonical state), transitions = calls of the operations and of "
+            "one exists. Periodically perturbed runs from every state of depth <= 2 (thorough 3; 4 messages 2) of the core "
+            "configurations and from every initial state: for every slot m, P<m>:<a>:<b>:q<q> = repeat { q x getNextPoll ; "
+            "if (m->setPollPriority(alternately a,b)) addPollMessage(false, m) } for all 16 ordered pairs (a,b) over {1,2,3,9} "
+            "and q in {1,2,3,5}; F<m>:q<q> the same with addPollMessage(true, m); A<m>:<a>:<b>:q<q> the same with 'remove m, "
+            "define m with priority a/b' (10 unordered pairs). Oracle: (W') every message is selected again within the same "
+            "waiting bound formula with p_m = max(a,b) for the perturbed message itself and p_m = min(a,b) when judging the "
+            "others (a correct implementation never postpones a message by a priority change); the re-defined message itself is "
+            "not judged; (F') messages other than m keep |n_i*p_i - n_j*p_j| <= p_i+p_j; front insertion: the unperturbed rules. "
+            "states = distinct (configuration, canonical state), transitions = calls of the operations and of "
             "getNextPoll in the judged runs, traces validated = judged unperturbed runs, distinct = states other than "
             "initial ones.",
     "assumptions": [
         "time() is the only clock read by the poll queue (interposed); poll interval and bus traffic are not part of the property",
         "priorities are set the way mainloop.cpp/mqtthandler.cpp do it: addPollMessage(false) only when setPollPriority returns true",
-        "the waiting bound is judged on unperturbed runs from every state reachable under perturbation (total wait <= history depth + bound)",
+        "the waiting bound is judged on unperturbed runs from every state reachable under perturbation (total wait <= history depth + bound) "
+        "and across perturbations for periodic patterns of one perturbed message (period 1,2,3,5); aperiodic perturbation sequences longer than the history depth are not covered",
     ],
     "runs": [{
         "harness": "c17_poll", "sources": ["engines/msgmc/c17_poll.cpp"],
